@@ -27,6 +27,33 @@ pub fn c04_table() {
     kani::cover!(r == 0);
 }
 
+/// History independence of the metadata calls: after both calls have been used for two *arbitrary*
+/// earlier resolutions (any i32, in either order of the two functions), the table sentence still
+/// holds for r — a memo or "step from the last answer" optimisation keyed too coarsely shows here.
+#[kani::proof]
+#[kani::unwind(34)]
+pub fn c04_table_seq() {
+    let r0: i32 = kani::any();
+    let r1: i32 = kani::any();
+    let _ = a5::cell_area(r0);
+    let _ = a5::get_num_cells(r1);
+    let _ = a5::get_num_cells(r0);
+    let _ = a5::cell_area(r1);
+    let r: i32 = kani::any();
+    kani::assume(r >= 0 && r <= 29);
+    let n_exact: u64 = if r == 0 { 12 } else { 60u64 << (2 * (r as u32 - 1)) };
+    let total = a5::cell_area(-1);
+    assert!(total == 510065624779439.1);
+    let d = a5::cell_area(r) * (n_exact as f64) - total;
+    assert!(d <= 1e-9 * total && d >= -1e-9 * total);
+    let got = a5::get_num_cells(r);
+    if r <= 27 {
+        assert!(got == n_exact);
+    }
+    kani::cover!(r0 == r + 32);
+    kani::cover!(r1 > r && r1 <= 27);
+}
+
 /// ∀ resolutions outside 0..29 the metadata call still returns a finite positive area
 /// (world area below 0) and never panics.
 #[kani::proof]
